@@ -27,6 +27,7 @@ def dispatch (fields : List String) : Verdict :=
   | "C16" :: rest => handleC16 rest
   | "C17" :: rest => handleC17 rest
   | "C18" :: rest => handleC18 rest
+  | "C02" :: "eval" :: rest => handleEval false rest   -- diagrams over named variables, through the parser
   | "C02" :: rest => handleC02 rest
   | "C03" :: rest => handleC03 rest
   | "C04" :: "eval" :: rest => handleEval true rest
